@@ -2,6 +2,7 @@ import PyaisVerif.Model.Codec
 import PyaisVerif.Spec.Layout
 import PyaisVerif.Lemmas.Bits
 import PyaisVerif.Lemmas.Layout
+import PyaisVerif.Lemmas.Encode
 /-!
 # Six-bit text: decode ∘ encode ∘ decode (text part of C02/C08)
 -/
@@ -14,27 +15,237 @@ def CanonText (s : List Nat) : Prop :=
 
 /-- `to_six_bit` inverts the decoder's character map -/
 theorem sixBitOf_sixToAscii (v : Nat) (h : v < 64) : sixBitOf (sixToAscii v) = some v := by
-  sorry
+  have : ∀ v, v < 64 → sixBitOf (sixToAscii v) = some v := by decide
+  exact this v h
+
+theorem strip_sublist (l : Bytes) : (strip l).Sublist l := by
+  unfold strip rstrip lstrip
+  have h1 : ((l.dropWhile isSpace).reverse.dropWhile isSpace).Sublist (l.dropWhile isSpace).reverse :=
+    List.dropWhile_sublist _
+  have h2 := List.reverse_sublist.mpr h1
+  rw [List.reverse_reverse] at h2
+  exact h2.trans (List.dropWhile_sublist _)
+
+theorem strip_head (l : Bytes) : ∀ b, (strip l).head? = some b → isSpace b = false := by
+  intro b hb
+  unfold strip lstrip at hb
+  have hh := List.head?_dropWhile_not isSpace l
+  cases hm : l.dropWhile isSpace with
+  | nil => rw [hm] at hb; simp [rstrip] at hb
+  | cons x xs =>
+    rw [hm] at hb hh
+    have hx : isSpace x = false := by simpa using hh
+    rw [rstrip_cons_of_not_space x xs hx] at hb
+    simp at hb; subst hb; exact hx
+
+theorem strip_last (l : Bytes) : ∀ b, (strip l).getLast? = some b → isSpace b = false := by
+  intro b hb
+  unfold strip rstrip at hb
+  rw [List.getLast?_reverse] at hb
+  have hh := List.head?_dropWhile_not isSpace (lstrip l).reverse
+  rw [hb] at hh; exact hh
+
+theorem strip_idem (l : Bytes) : strip (strip l) = strip l :=
+  strip_id _ (strip_head l) (strip_last l)
+
+theorem ascii6Chars_cons (c : Bits) (cs : List Bits) :
+    ascii6Chars (c :: cs) =
+      if sixToAscii (fromBytes c >>> 2) = 64 then [] else sixToAscii (fromBytes c >>> 2) :: ascii6Chars cs := by
+  rfl
+
+theorem ascii6Chars_range (cs : List Bits) (h : ∀ c ∈ cs, 1 ≤ c.length ∧ c.length ≤ 6) :
+    ∀ x ∈ ascii6Chars cs, 32 ≤ x ∧ x ≤ 95 ∧ x ≠ 64 := by
+  induction cs with
+  | nil => intro x hx; simp [ascii6Chars] at hx
+  | cons c cs ih =>
+    intro x hx
+    have hlt := fromBytes_shift2_lt c (h c (by simp)).1 (h c (by simp)).2
+    rw [ascii6Chars_cons] at hx
+    split at hx
+    · simp at hx
+    · rename_i hne
+      rcases List.mem_cons.mp hx with rfl | hx
+      · by_cases h32 : fromBytes c >>> 2 < 32 <;>
+          simp only [sixToAscii, h32, if_true, if_false] at hne ⊢ <;> omega
+      · exact ih (fun c hc => h c (List.mem_cons_of_mem _ hc)) x hx
+
+theorem ascii6Chars_length (cs : List Bits) : (ascii6Chars cs).length ≤ cs.length := by
+  induction cs with
+  | nil => simp [ascii6Chars]
+  | cons c cs ih =>
+    rw [ascii6Chars_cons]
+    split
+    · simp
+    · simp only [List.length_cons]; omega
 
 /-- what the decoder returns is canonical -/
 theorem decodeAscii6_canon (bits : Bits) : CanonText (decodeAscii6 bits) := by
-  sorry
+  unfold decodeAscii6
+  refine ⟨?_, strip_idem _⟩
+  intro c hc
+  exact ascii6Chars_range _ (chunks6_len bits) c ((strip_sublist _).subset hc)
 
 /-- the decoded text is never longer than the number of started six-bit groups -/
 theorem decodeAscii6_length (bits : Bits) : (decodeAscii6 bits).length ≤ (bits.length + 5) / 6 := by
-  sorry
+  unfold decodeAscii6
+  have h1 := (strip_sublist (ascii6Chars (chunks 6 bits))).length_le
+  have h2 := ascii6Chars_length (chunks 6 bits)
+  have h3 := chunks_length 6 (by decide) bits
+  have e : (bits.length + 6 - 1) / 6 = (bits.length + 5) / 6 := by congr 1
+  omega
+
+/-! ## encoding side -/
+
+/-- the six-bit code of a character of the alphabet (`@` ↦ 0) -/
+def sixCode (c : Nat) : Nat := if 64 ≤ c then c - 64 else c
+
+theorem sixBitOf_sixCode (c : Nat) (h1 : 32 ≤ c) (h2 : c ≤ 95) :
+    sixBitOf c = some (sixCode c) ∧ sixCode c < 64 ∧ sixToAscii (sixCode c) = c := by
+  have : ∀ c, c < 96 → 32 ≤ c →
+      sixBitOf c = some (sixCode c) ∧ sixCode c < 64 ∧ sixToAscii (sixCode c) = c := by decide
+  exact this c (by omega) h1
+
+theorem foldlM_blocks (f : Bits → Nat → Except Err Bits) (l : List Nat)
+    (hf : ∀ acc c, c ∈ l → f acc c = .ok (acc ++ ofNat 6 (sixCode c))) (acc : Bits) :
+    l.foldlM f acc = .ok (acc ++ (l.map fun c => ofNat 6 (sixCode c)).flatten) := by
+  induction l generalizing acc with
+  | nil => simp [List.foldlM]; rfl
+  | cons c l ih =>
+    rw [List.foldlM_cons, hf acc c (by simp)]
+    show List.foldlM f (acc ++ ofNat 6 (sixCode c)) l = _
+    rw [ih (fun acc c hc => hf acc c (List.mem_cons_of_mem _ hc))]
+    simp [List.append_assoc]
+
+/-- the loop of `str_to_bin` on characters of the alphabet -/
+theorem strToBin_take (l : List Nat) (hl : ∀ c ∈ l, 32 ≤ c ∧ c ≤ 95) :
+    l.foldlM (init := ([] : Bits)) (fun acc c =>
+      match sixBitOf c with
+      | some v => (.ok (acc ++ ofNat 6 v) : Except Err Bits)
+      | Option.none => .error .valueError)
+    = .ok ((l.map fun c => ofNat 6 (sixCode c)).flatten) := by
+  rw [foldlM_blocks _ l _ []]
+  · rfl
+  · intro acc c hc
+    simp only [(sixBitOf_sixCode c (hl c hc).1 (hl c hc).2).1]
+
+theorem chunksAux_fuel {α} (n : Nat) (hn : 0 < n) (fuel : Nat) (l : List α) (h : l.length < fuel) :
+    chunksAux n fuel l = chunks n l := by
+  apply List.ext_getElem
+  · rw [chunksAux_length n hn fuel l h, chunks_length n hn]
+  · intro i h1 h2
+    rw [chunksAux_getElem n hn fuel l h, chunks_getElem n hn]
+
+theorem chunks_block (b rest : Bits) (hb : b.length = 6) :
+    chunks 6 (b ++ rest) = b :: chunks 6 rest := by
+  have hne : b ++ rest ≠ [] := by
+    intro h; have := congrArg List.length h; rw [List.length_append, hb] at this; simp at this
+  unfold chunks
+  rw [chunksAux_cons _ _ _ hne, List.take_left' hb, List.drop_left' hb]
+  congr 1
+  exact chunksAux_fuel 6 (by decide) _ _ (by rw [List.length_append]; omega)
+
+theorem chunks_blocks (bs : List Bits) (hb : ∀ b ∈ bs, b.length = 6) (rest : Bits) :
+    chunks 6 (bs.flatten ++ rest) = bs ++ chunks 6 rest := by
+  induction bs with
+  | nil => simp
+  | cons b bs ih =>
+    rw [List.flatten_cons, List.append_assoc, chunks_block _ _ (hb b (by simp)),
+      ih (fun b h => hb b (List.mem_cons_of_mem _ h))]
+    rfl
+
+theorem chunks_zeros (pad : Nat) : ∀ c ∈ chunks 6 (zeros pad), ∀ b ∈ c, b = false := by
+  intro c hc b hb
+  have : b ∈ (chunks 6 (zeros pad)).flatten := List.mem_flatten.mpr ⟨c, hc, hb⟩
+  rw [chunks_flatten 6 (by decide)] at this
+  exact (List.mem_replicate.mp this).2
+
+theorem takeWhile_append_at (s rest : List Nat) (hs : ∀ c ∈ s, c ≠ 64) (hr : ∀ c ∈ rest, c = 64) :
+    (s ++ rest).takeWhile (· ≠ 64) = s := by
+  induction s with
+  | nil =>
+    cases rest with
+    | nil => rfl
+    | cons x xs => simp [hr x (by simp)]
+  | cons c s ih =>
+    have hc := hs c (by simp)
+    simp only [List.cons_append]
+    rw [List.takeWhile_cons_of_pos (by simpa using hc), ih (fun c h => hs c (List.mem_cons_of_mem _ h))]
+
+/-- decoding the encoder's blocks, `@` blocks and zero padding bits -/
+theorem decodeAscii6_blocks (s : List Nat) (hs : ∀ c ∈ s, 32 ≤ c ∧ c ≤ 95 ∧ c ≠ 64) (k pad : Nat) :
+    decodeAscii6 (((s ++ List.replicate k 64).map fun c => ofNat 6 (sixCode c)).flatten ++ zeros pad)
+      = strip s := by
+  unfold decodeAscii6
+  have hblk : ∀ b ∈ (s ++ List.replicate k 64).map (fun c => ofNat 6 (sixCode c)), b.length = 6 := by
+    intro b hb
+    obtain ⟨x, _, rfl⟩ := List.mem_map.mp hb
+    simp
+  have hok : ∀ c ∈ (s ++ List.replicate k 64).map (fun c => ofNat 6 (sixCode c)) ++ chunks 6 (zeros pad),
+      ChunkOK c := by
+    intro c hc
+    rcases List.mem_append.mp hc with hc | hc
+    · left; exact hblk c hc
+    · right; exact chunks_zeros pad c hc
+  rw [chunks_blocks _ hblk, ascii6Chars_eq _ hok]
+  congr 1
+  have e1 : s.map ((fun c => sixToAscii (toNat c)) ∘ fun c => ofNat 6 (sixCode c)) = s := by
+    conv => rhs; rw [← List.map_id s]
+    apply List.map_congr_left
+    intro c hc
+    have h := hs c hc
+    have h' := sixBitOf_sixCode c h.1 h.2.1
+    simp only [Function.comp, toNat_ofNat, id]
+    rw [Nat.mod_eq_of_lt (by simpa using h'.2.1), h'.2.2]
+  rw [List.map_append, List.map_map, List.map_append, List.append_assoc, e1]
+  apply takeWhile_append_at s _ (fun c hc => (hs c hc).2.2)
+  intro c hc
+  rcases List.mem_append.mp hc with hc | hc
+  · simp only [List.map_replicate, List.mem_replicate] at hc
+    rw [hc.2]; decide
+  · obtain ⟨ch, hch, rfl⟩ := List.mem_map.mp hc
+    rw [(fromBytes_zeros ch (chunks_zeros pad ch hch)).2]; decide
+
+theorem blocks_length (l : List Nat) :
+    ((l.map fun c => ofNat 6 (sixCode c)).flatten).length = 6 * l.length := by
+  induction l with
+  | nil => rfl
+  | cons c l ih => simp only [List.map_cons, List.flatten_cons, List.length_append, ofNat_length, ih,
+      List.length_cons]; omega
 
 /-- the bits `str_to_bin` produces for a canonical text without padding: six bits per character -/
 theorem strToBin_canon (s : List Nat) (hs : CanonText s) (w : Nat) (hlen : s.length ≤ w / 6) :
     ∃ b, strToBin s w false = .ok b ∧ b.length = 6 * s.length ∧
       (s ≠ [] → decodeAscii6 b = s) := by
-  sorry
+  have hr : ∀ c ∈ s, 32 ≤ c ∧ c ≤ 95 := fun c hc => ⟨(hs.1 c hc).1, (hs.1 c hc).2.1⟩
+  refine ⟨(s.map fun c => ofNat 6 (sixCode c)).flatten, ?_, blocks_length s, ?_⟩
+  · unfold strToBin
+    simp only [Bool.false_eq_true, if_false]
+    rw [List.take_of_length_le hlen]
+    exact strToBin_take s hr
+  · intro _
+    have h := decodeAscii6_blocks s hs.1 0 0
+    rw [hs.2] at h
+    simpa [zeros] using h
 
 /-- … and with `@` padding up to `w / 6` characters (fixed-width fields): decodes back to the text,
 also for the empty text, and also when followed by zero padding bits -/
 theorem strToBin_canon_padded (s : List Nat) (hs : CanonText s) (w : Nat) (hlen : s.length ≤ w / 6) (pad : Nat) :
     ∃ b, strToBin s w true = .ok b ∧ b.length = 6 * (w / 6) ∧ decodeAscii6 (b ++ zeros pad) = s := by
-  sorry
+  have hr : ∀ c ∈ s ++ List.replicate (w / 6 - s.length) 64, 32 ≤ c ∧ c ≤ 95 := by
+    intro c hc
+    rcases List.mem_append.mp hc with hc | hc
+    · exact ⟨(hs.1 c hc).1, (hs.1 c hc).2.1⟩
+    · rw [(List.mem_replicate.mp hc).2]; omega
+  have hl : (s ++ List.replicate (w / 6 - s.length) 64).length = w / 6 := by
+    rw [List.length_append, List.length_replicate]; omega
+  refine ⟨((s ++ List.replicate (w / 6 - s.length) 64).map fun c => ofNat 6 (sixCode c)).flatten,
+    ?_, ?_, ?_⟩
+  · unfold strToBin
+    simp only [if_true]
+    rw [List.take_of_length_le (Nat.le_of_eq hl)]
+    exact strToBin_take _ hr
+  · rw [blocks_length, hl]
+  · rw [decodeAscii6_blocks s hs.1, hs.2]
 
 /-- a text field that is already canonical on the wire (`@` only as trailing padding, no outer
 blanks in the text part) is re-encoded bit for bit -/
